@@ -7,8 +7,14 @@ Line-protocol driver for the Producer model (C17).
   c17.argclass x<argument hex> x<absolute path hex> <isDir 0|1>
                                                   -> zip | dir | plain | panic bad-ext | panic no-ext
 
+  c17.canon x<raw entry name hex>                 -> dir | none | x<canonical name hex>
+  c17.ziplist FILE,FILE,…                         -> the listing of a raw archive: FILE,FILE,… (`zipListed`)
+  c17.zipfirst FILE,FILE,…                        -> the reference listing `zipFirst` (first entry per canonical name)
+
   ARG  = d<label>:FILE,FILE,…   directory (files in walk order)
-       | z<label>:FILE,FILE,…   zip archive (entries in index order)
+       | z<label>:FILE,FILE,…   zip archive given by its listing (canonical, distinct names)
+       | Z<label>:FILE,FILE,…   zip archive given by its RAW central-directory entries in order
+                                (`Producer.zipListed` makes the listing)
        | p:FILE                 plain-file argument
   FILE = <path hex>/<head hex>/<cid decimal>
 
@@ -18,6 +24,7 @@ Items are printed sorted (the code's order is hash-map order):
   name = a<label> | plain | - | ext
 -/
 import GrcovModel.Producer
+import GrcovModel.Producer.Zip
 import GrcovModel.Drv.Common
 namespace Grcov.Drv.C17
 open Grcov Grcov.Drv Grcov.Producer
@@ -35,6 +42,9 @@ def parseArg (s : String) : Option Arg :=
     if hd = "p" then (parseFile body).map Arg.plain
     else if hd.startsWith "d" then do pure (Arg.dir (← (hd.drop 1).toString.toNat?) (← parseFiles body))
     else if hd.startsWith "z" then do pure (Arg.zip (← (hd.drop 1).toString.toNat?) (← parseFiles body))
+    else if hd.startsWith "Z" then do
+      let fs ← parseFiles body
+      pure (RArg.toArg (.zip (← (hd.drop 1).toString.toNat?) (fs.map fun f => ⟨f.path, f.head, f.cid⟩)))
     else none
   | _ => none
 
@@ -99,6 +109,27 @@ def handleRun (ws : List String) : String :=
 def handleSpec (ws : List String) : String :=
   match parseReq ws with
   | some (o, args) => showSpec o args
+  | none => "bad-op"
+
+def showFile (f : File) : String := s!"{toHex f.path}/{toHex f.head}/{f.cid}"
+
+def handleCanon (ws : List String) : String :=
+  match ws with
+  | [n] =>
+    match (if n.startsWith "x" then fromHex (n.drop 1).toString else none) with
+    | some n =>
+      if rawIsDir n then "dir"
+      else match canonName n with
+        | some c => "x" ++ toHex c
+        | none => "none"
+    | none => "bad-op"
+  | _ => "bad-op"
+
+def handleZipList (first : Bool) (ws : List String) : String :=
+  match parseFiles (joinWith " " ws) with
+  | some fs =>
+    let es : List RawEntry := fs.map fun f => ⟨f.path, f.head, f.cid⟩
+    joinWith "," ((if first then zipFirst es else zipListed es).map showFile)
   | none => "bad-op"
 
 def xarg (s : String) : Option (List Nat) :=
